@@ -215,7 +215,7 @@ func genHostile() *rapid.Generator[[]byte] {
 }
 
 func TestPropDecompressHostile(t *testing.T) {
-	vlib.Check(t, 6000, 150000, func(t *rapid.T) {
+	vlib.Check(t, 6000, 100000, func(t *rapid.T) {
 		in := genHostile().Draw(t, "input")
 		class, err := checkDecompress(in, true)
 		if err != nil {
@@ -342,7 +342,7 @@ func checkRoundTrips(data []byte, keySeed uint32) (err error) {
 }
 
 func TestPropHelperRoundTrips(t *testing.T) {
-	vlib.Check(t, 1500, 40000, func(t *rapid.T) {
+	vlib.Check(t, 1500, 24000, func(t *rapid.T) {
 		d := genData().Draw(t, "data")
 		seed := rapid.Uint32().Draw(t, "keySeed")
 		if err := checkRoundTrips(d.b, seed); err != nil {
